@@ -214,7 +214,11 @@ def gen(rng, tier, index):
         b = _gen_bad(rng, m, n)
         if b is not None:
             ops.append(b)
-    return {"shape": [m, n], "subs": shapes[1:], "ops": ops}
+    plan = {"shape": [m, n], "subs": shapes[1:], "ops": ops}
+    if rng.random() < 0.15:
+        # the unit system is the user's: the whole history in very small or very large numbers
+        plan["scale_exp"] = int(rng.choice([-70, -60, -53, 45]))
+    return plan
 
 
 # ------------------------------------------------------------------ executor
@@ -236,6 +240,9 @@ def _build_index(spec, n):
     return np.array([], dtype=np.int64), []
 
 
+SCALE = {"x": 1.0}  # unit scale of the current history (a power of two: every sum stays exact)
+
+
 def _build_value(spec, r, c):
     """-> (python value handed to CooMatrix, dense (r,c) model block or None)"""
     from scipy.sparse import csr_array, csc_array, coo_array
@@ -247,6 +254,8 @@ def _build_value(spec, r, c):
     r, c = spec["sh"]
     NP = {"i8": np.int64, "i4": np.int32, "f4": np.float32, "b": np.bool_}
     dt = spec.get("dt")
+    if SCALE["x"] != 1.0 and dt in ("i8", "i4", "b"):
+        dt = None  # integer element types cannot carry the history's unit scale
 
     def typed(a):
         """the same numbers in the element type / container the spec asks for"""
@@ -257,7 +266,7 @@ def _build_value(spec, r, c):
         return a.astype(NP[dt])
 
     if k == "dense2d":
-        a = np.array(spec["v"], dtype=float).reshape(r, c)
+        a = np.array(spec["v"], dtype=float).reshape(r, c) * SCALE["x"]
         h = typed(a)
         lay = spec.get("lay")
         if isinstance(h, np.ndarray) and lay == "F":
@@ -270,10 +279,10 @@ def _build_value(spec, r, c):
             h = np.ascontiguousarray(h.T).T
         return h, a
     if k == "dense1d":
-        a = np.array(spec["v"], dtype=float).reshape(1, -1)
+        a = np.array(spec["v"], dtype=float).reshape(1, -1) * SCALE["x"]
         return typed(a[0].copy()), a
     if k == "scalar":
-        x = float(spec["v"][0][0])
+        x = float(spec["v"][0][0]) * SCALE["x"]
         hx = x
         if dt == "py":
             hx = int(x) if x.is_integer() else x
@@ -282,7 +291,7 @@ def _build_value(spec, r, c):
         return hx, np.array([[x]])
     if k in ("csr", "csc", "coo"):
         rr, cc = r, c
-        a = np.array(spec["v"], dtype=float).reshape(rr, cc)
+        a = np.array(spec["v"], dtype=float).reshape(rr, cc) * SCALE["x"]
         mk = np.array(spec["mask"], dtype=float).reshape(rr, cc)
         d = a * mk
         cls = {"csr": csr_array, "csc": csc_array, "coo": coo_array}[k]
@@ -293,8 +302,8 @@ def _build_value(spec, r, c):
         jj = [e[1] for e in spec["ijv"]]
         vv = [e[2] for e in spec["ijv"]]
         for i, j, v in spec["ijv"]:
-            d[i, j] += v
-        return coo_array((np.array(vv, dtype=float), (np.array(ii, dtype=int), np.array(jj, dtype=int))), shape=(r, c)), d
+            d[i, j] += v * SCALE["x"]
+        return coo_array((np.array(vv, dtype=float) * SCALE["x"], (np.array(ii, dtype=int), np.array(jj, dtype=int))), shape=(r, c)), d
     if k == "nested":
         rr, cc = r, c
         sub = CooMatrix((rr, cc))
@@ -331,6 +340,9 @@ def _convert(coo, fmt):
 def execute(plan, out, log):
     from cardillo.utility.coo_matrix import CooMatrix
 
+    SCALE["x"] = float(2.0 ** plan.get("scale_exp", 0))
+    if plan.get("scale_exp", 0):
+        out["probes"]["rescaled_history"] += 1
     shapes = [tuple(plan["shape"])] + [tuple(x) for x in plan.get("subs", [])]
     coos = [CooMatrix(sh) for sh in shapes]
     denses = [np.zeros(sh) for sh in shapes]
